@@ -371,6 +371,8 @@ def gen_field(f, rnd):
 def mutate_value(sh, v, rnd, p=0.35, only_skipped=False):
     """a mutation of v touching some fields (leader's next state)"""
     if sh['t'] == 'enum':
+        if only_skipped:
+            return v          # an enum has no skipped part: an equivalent follower holds the same value
         return gen_value(sh, rnd) if rnd.random() < p else v
     out = ['s']
     for f, x in zip(sh['fields'], v[1:]):
